@@ -167,25 +167,38 @@ theorem log_ptMono {F : Fns α} (hF : FnsOK F) {o : α} (ho : OffsetOK F o) (l :
   · by_cases hmm : mn < mx
     · exact (log_ptStrict hF ho h1 h2 hmm).ptMono
     · refine ⟨logPt F o mn mx, by simp [logWarp, h1, h2], ?_⟩
-      intro u _ v _ _
-      cases u <;> simp [logPt, hmm]
+      intro u _ v _ huv
+      cases u with
+      | none => simp [logPt]
+      | some a =>
+        cases v with
+        | none => simp at huv
+        | some b => simp [logPt, hmm]
 
-/-- all finite labels equal (max = min): every entry becomes NaN (`0/0`) -/
-theorem log_all_none {F : Fns α} {o : α} {l : List (Option α)}
-    (hall : ∀ x ∈ fins l, ∀ y ∈ fins l, x = y) : ∀ u ∈ logWarp F o l, u = none := by
+/-- all finite labels equal (max = min): every finite entry goes to the middle of the range, a missing entry stays
+missing (the repaired `norm_diff = 0` branch; the pinned commit computed `0/0` here) -/
+theorem log_all_const {F : Fns α} {o : α} {l : List (Option α)}
+    (hall : ∀ x ∈ fins l, ∀ y ∈ fins l, x = y) :
+    logWarp F o l = l.map (fun u => u.map fun _ => half) := by
   rcases lmin_lmax_cases (fins l) with ⟨he, h1, h2⟩ | ⟨mn, mx, h1, h2⟩
-  · intro u hu
-    simp only [logWarp, h1, h2] at hu
-    cases u with
-    | none => rfl
-    | some a =>
-      have : a ∈ fins l := mem_fins.mpr hu
-      rw [he] at this
-      simp at this
+  · simp only [logWarp, h1, h2]
+    have hn : ∀ u ∈ l, u = none := by
+      intro u hu
+      cases u with
+      | none => rfl
+      | some a =>
+        have : a ∈ fins l := mem_fins.mpr hu
+        rw [he] at this
+        simp at this
+    calc l = l.map id := by simp
+      _ = l.map (fun u => u.map fun _ => half) := by
+        apply List.map_congr_left
+        intro u hu
+        rw [hn u hu]; rfl
   · have e : mn = mx := hall mn (lmin_spec h1).1 mx (lmax_spec h2).1
-    intro u hu
-    simp only [logWarp, h1, h2, List.mem_map] at hu
-    obtain ⟨v, _, rfl⟩ := hu
+    simp only [logWarp, h1, h2]
+    apply List.map_congr_left
+    intro v _
     cases v <;> simp [logPt, e]
 
 /-! ### HalfRankComponent -/
@@ -489,28 +502,32 @@ theorem normalize_ptMono {lo hi : α} (hlh : lo ≤ hi) (l : List (Option α)) :
 
 theorem transformToGaussian_ptMono {F : Fns α} (hF : FnsOK F) (l : List (Option α)) :
     PtMono l (transformToGaussian F l) := by
-  have hconst : MonoOn l (fun _ : Option α => (none : Option α)) := fun _ _ _ _ _ => by simp
   unfold transformToGaussian
   rcases lmin_lmax_cases (fins l) with ⟨_, h1, h2⟩ | ⟨mn, mx, h1, h2⟩
-  · simp only [h1, h2]; exact ⟨_, rfl, hconst⟩
+  · simpa [h1, h2] using ptMono_id l
   · simp only [h1, h2]
     split
-    · exact ⟨_, rfl, hconst⟩
-    · split
-      · rename_i _ hmm
-        refine ⟨_, rfl, ?_⟩
-        intro u _ v _ huv
-        cases u with
-        | none => simp [gaussPt]
-        | some a =>
-          cases v with
-          | none => simp at huv
-          | some b =>
-            simp only [leO_some_some] at huv
-            simp only [gaussPt, leO_some_some]
-            apply hF.gauss_mono
-            apply div_le_div_of_nonneg_right _ (le_of_lt (sub_pos.mpr hmm))
-            linarith
-      · exact ⟨_, rfl, hconst⟩
+    · rename_i hmm
+      refine ⟨_, rfl, ?_⟩
+      intro u _ v _ huv
+      cases u with
+      | none => simp [gaussPt]
+      | some a =>
+        cases v with
+        | none => simp at huv
+        | some b =>
+          simp only [leO_some_some] at huv
+          simp only [gaussPt, leO_some_some]
+          apply hF.gauss_mono
+          apply div_le_div_of_nonneg_right _ (le_of_lt (sub_pos.mpr hmm))
+          linarith
+    · refine ⟨_, rfl, ?_⟩
+      intro u _ v _ huv
+      cases u with
+      | none => simp [gaussMid]
+      | some a =>
+        cases v with
+        | none => simp at huv
+        | some b => simp [gaussMid]
 
 end VizierModel.Warp
